@@ -3,7 +3,7 @@
 // reply: (sc (flat <json|(throw)>*) (calls (<schema|(throw)> <exportDefinitions>)*))
 // oracle channel: (oracle-data "<json>") — consumed by tools/schema_oracle.py (python jsonschema, Draft 2020-12)
 import { A, Atom, show, head, isAtom } from "./sx.mjs";
-import { encVal, decVal, makeBuilder } from "./values.mjs";
+import { encVal, decVal, makeBuilder, makeBuilder as makeBuilder0 } from "./values.mjs";
 import { genRT, genEnv, genDisc, member, mutate, registerFormats } from "./mode_rt.mjs";
 
 const TEMPLATES = [["#/$defs/{name}", "$defs"], ["#/components/schemas/{name}", "schemas"], ["#/definitions/{name}", null], ["urn:x:{name}:{name}", "defs"]];
@@ -75,6 +75,20 @@ function gen1(rng, params, mode) {
       });
     }
   }
+  // two named types with EQUAL bodies, the body on a cycle through the first of them (`ListNode = { value; next?: ListNode }`,
+  // `ListHead = { value; next?: ListNode }`): the compiler emits structurally equal runtypes as ONE shared object (the builder
+  // of the harness shares them too), and what is being printed is a matter of NAMES, not of objects; often only the twin is printed
+  if (rng.chance(1, multi ? 5 : 8)) {
+    const k = names.length, nn = "Ln" + k, hn = "Lh" + k, an = "La" + k;
+    const self = rng.pick([[A("opt"), [A("ref"), nn]], [A("array"), [A("ref"), nn]], [A("anyof"), [A("ref"), nn], [A("nullish"), "null"]]]);
+    const body = () => [A("object"), [["value", [A("typeof"), "string"]], ["next", JSON.parse(JSON.stringify(self), (kk, v) => (v && typeof v === "object" && !Array.isArray(v) && "s" in v ? A(v.s) : v))]], []];
+    env.push([nn, body()], [hn, body()]);
+    names.push(nn, hn);
+    if (rng.chance(1, 2)) { env.push([an, [A("ref"), nn]]); names.push(an); }
+    const roots = rng.pick([[[A("ref"), hn]], [[A("ref"), hn], [A("ref"), nn]], [[A("ref"), nn], [A("ref"), hn]], [[A("object"), [["h", [A("ref"), hn]]], []]], ...(names.includes(an) ? [[[A("ref"), an], [A("ref"), hn]], [[A("ref"), hn], [A("ref"), an]]] : [])]);
+    if (multi) rts.splice(0, Math.min(roots.length, rts.length), ...roots.slice(0, Math.max(1, Math.min(roots.length, rts.length))));
+    else rts.splice(0, 1, roots[0]);
+  }
   // one named type referred to several times in one print, some of the references carrying a doc comment (a described
   // reference is a node of its own): the flat schema inlines the type at EVERY reference
   if (rng.chance(1, 8)) {
@@ -113,6 +127,8 @@ export function makeRunner(rt_, mode) {
   const buildEnv = makeBuilder(cg);
   return function run(req) {
     const [, envSx, rtsSx, tpl, keySx, ovSx, callsSx, docsSx] = req;
+    // structurally equal runtypes are ONE object in a compiled module (the printer hoists them): the harness shares them too
+    const makeBuilder = (c) => makeBuilder0(c, { share: true });
     const built = rtsSx.map((r) => buildEnv(envSx, r));
     // one shared table: the parsers of one request must resolve references in the same environment
     const table = built[0].table;
